@@ -51,8 +51,13 @@ pub fn run(
     let mut rng = Rng::new(mix(&[seed, 71]));
     let n_conns = if thorough { rng.range(3, 10) } else { rng.range(3, 6) }
         as usize;
+    // Swarm: how often setup fails and whether the connections arrive as
+    // a burst that is queued in the backlog before the listener runs.
+    let fail_pct = *rng.pick(&[35u64, 35, 80, 100]);
+    let burst = rng.chance(50, 100);
+    let n_conns = if burst && thorough { n_conns + rng.usize(8) } else { n_conns };
     let mut plan: Vec<bool> = (0..n_conns).map(|i| {
-        !mask.contains(&(0, i)) && rng.chance(35, 100)
+        !mask.contains(&(0, i)) && rng.chance(fail_pct, 100)
     }).collect();
     // The last connection always has a working setup: it is the probe.
     plan.push(false);
@@ -97,17 +102,40 @@ pub fn run(
         ).expect("rtr_listener");
         let server = tokio::spawn(server);
         let mut res = Vec::new();
+        // In burst mode all but the last connection are established (by the
+        // kernel) before the listener task gets to run.
+        let mut queued: Vec<Option<std::net::TcpStream>> = Vec::new();
+        for i in 0..plan.len() {
+            if burst && i + 1 < plan.len() {
+                let stream = std::net::TcpStream::connect(
+                    ("127.0.0.1", port)
+                ).ok();
+                if let Some(stream) = stream.as_ref() {
+                    let _ = stream.set_nonblocking(true);
+                }
+                queued.push(stream);
+            }
+            else {
+                queued.push(None);
+            }
+        }
         for (i, fails) in plan.iter().enumerate() {
             // If keepalive is off, setup is never attempted and never fails.
             let fails = *fails && keepalive.is_some();
             // Each client from its own source address.
             let src = format!("127.0.0.{}:0", 2 + (i % 5));
+            let queued = queued[i].take();
             let attempt = async {
-                let socket = tokio::net::TcpSocket::new_v4()?;
-                socket.bind(src.parse().unwrap())?;
-                let mut stream = socket.connect(
-                    format!("127.0.0.1:{port}").parse().unwrap()
-                ).await?;
+                let mut stream = match queued {
+                    Some(stream) => tokio::net::TcpStream::from_std(stream)?,
+                    None => {
+                        let socket = tokio::net::TcpSocket::new_v4()?;
+                        socket.bind(src.parse().unwrap())?;
+                        socket.connect(
+                            format!("127.0.0.1:{port}").parse().unwrap()
+                        ).await?
+                    }
+                };
                 // Reset Query, protocol version 1.
                 stream.write_all(&[1, 2, 0, 0, 0, 0, 0, 8]).await?;
                 let mut header = [0u8; 8];
@@ -170,8 +198,9 @@ pub fn run(
     std::thread::sleep(Duration::from_millis(20));
     let _ = std::fs::remove_dir_all(scratch);
     stats.steps = outcome.len() as u64;
+    stats.fault(if burst { "burst" } else { "sequential" });
     stats.signature = format!(
-        "{:?}:{:?}:{}", plan, keepalive.is_some(), per_client_metrics
+        "{:?}:{:?}:{}:{}", plan, keepalive.is_some(), per_client_metrics, burst
     );
     RunResult {
         seed, violations, stats, log,
